@@ -420,6 +420,17 @@ func (v Value) opAdd(b Value) Value {
 		return Value{t: untypedInt, num: v.num + b.num}
 	}
 }
+
+// incDec adds the untyped constant n, so the result keeps the operand's type.
+// A negative step is subtracted so that no negative constant is converted to
+// an unsigned type.
+func (v Value) incDec(n int) Value {
+	if n < 0 {
+		return v.opSub(newUntypedInt(-n))
+	}
+	return v.opAdd(newUntypedInt(n))
+}
+
 func (v Value) opSub(b Value) Value {
 	t := mixType(v.t, b.t)
 	switch t {
